@@ -18,6 +18,24 @@ CLAIMS = {
             BASE_TRUST),
 }
 
+FS_NOTE = BASE_TRUST + " FS tier: POSIX contracts of os.replace/remove/makedirs, shutil.rmtree/copytree (multi-step), the synced_collections read/write contract, CALC as function of the JSON value."
+CLAIMS.update({
+    "C02": ("other", "Contracts on Project.open_job (no disk effect, unaliased copy), Job.__init__, Job.init (creates a validating directory, idempotent, never rewrites without force), "
+            "_StatePointDict.save/load (save-if-absent, load returns only validated data) discharged for all symbolic pre-states and injected faults. Listing / prefix resolution by id "
+            "are bounded-only so far, hence level 'other'.", "DESIGN 4/C02", "contract-based deductive verification (pyvc VC generator over the real AST, z3) over a structured FS ghost state", FS_NOTE),
+    "C03": ("other", "One Hoare triple per mutating operation under contract so far (init, remove, re-key _save, move, clone, open_job, Job.__init__): each preserves the job class invariant and the "
+            "frame 'every other job untouched'; the lift to arbitrary histories is the induction over these triples (not mechanised yet). Level 'other' until every operation of the property is under contract.",
+            "DESIGN 4/C03", "contract-based deductive verification (class invariant + per-operation triples, pyvc+z3)", FS_NOTE),
+    "C04": ("other", "Re-key (_StatePointDict._save) proved for an arbitrary number of live handles: directory moved with all entries, new state point written, no backup left, every handle follows; "
+            "DestinationExistsError implies byte-identical state; occupied destination never clobbered. Job.move and Project.clone likewise. update_statepoint / copy protocols not yet under contract: level 'other'.",
+            "DESIGN 4/C04", "contract-based deductive verification (pyvc+z3), arbitrary-element loop rule for the handle list", FS_NOTE),
+    "C09": ("other", "Hash validation on load (_StatePointDict.load: returns only data whose id matches, otherwise JobsCorruptedError naming the job) and Job.init(force) contracts discharged. "
+            "check()/repair() loops are not yet under contract: level 'other'.", "DESIGN 4/C09", "contract-based deductive verification (pyvc+z3)", FS_NOTE),
+    "C11": ("other", "Crash-point invariants asserted after every file-system effect on every path, and exceptional postconditions for an injected OSError (symbolic errno != ENOENT) at every external, "
+            "for Job.init, _StatePointDict.save, the re-key protocol, move, clone and remove. clear/reset not yet under contract: level 'other'.",
+            "DESIGN 4/C11", "contract-based deductive verification with effect traces and fault injection at every external (pyvc+z3)", FS_NOTE),
+})
+
 NOT_YET = "not yet under contract in this round of the build (see DESIGN.md section 8 for the order); no check is registered, nothing is claimed"
 
 NA = {}
